@@ -80,7 +80,7 @@ func (propC04) Run(ctx *Ctx, index int) {
 
 func (propC04) Meta() PropMeta {
 	return PropMeta{
-		Rule: "each case = one generated client program (capacity 1-3; 1-3 producers adding 1-3 unique values; 0-3 consumers doing 1-3 RemoveHead calls or draining until ok=false; 0-2 observers calling GetSize/IsEmpty/AsArray/GetIterator; optional RemoveAll caller; optional closer that waits for the producers) run under one seeded schedule (strategy drawn per run: random walk, PCT depth 1-3, sticky, starve-one). Oracles: no panic, happens-before race detection, porcupine linearizability against a nondeterministic FIFO model, conservation, back-pressure, interval-based observer bounds, ok=false only after close. Non-trivial = at least 2 tasks and at least 2 context switches; distinct = distinct (program, schedule trace).",
+		Rule: "each case = one generated client program (capacity 1-3; 1-3 producers adding 1-3 unique values; 0-3 consumers doing 1-3 RemoveHead calls or draining until ok=false; 0-2 observers calling GetSize/IsEmpty/AsArray/GetIterator; optional RemoveAll caller; optional closer that waits for the producers; one case in sixteen is a many-goroutine stress program instead: capacity 4-16, 3-8 producers x 2-8 values, 2-8 consumers, observers, optional RemoveAll and closer, linearizability search skipped; the thorough tier also draws larger small programs) run under one seeded schedule (strategy drawn per run: random walk, PCT depth 1-3, sticky, starve-one). Oracles: no panic, happens-before race detection, porcupine linearizability against a nondeterministic FIFO model, conservation, per-producer delivery order, back-pressure, interval-based observer bounds, ok=false only after close. Non-trivial = at least 2 tasks and at least 2 context switches; distinct = distinct (program, schedule trace).",
 		Assumptions: []string{
 			"AddValue overlapping or following CloseQueue and a second CloseQueue are outside the program space (invalid on their own)",
 			"preemption happens at synchronisation operations and harness call boundaries, not inside data accesses",
@@ -241,7 +241,7 @@ func runCtorCase(ctx *Ctx, form, n int) {
 
 func (propC05) Meta() PropMeta {
 	return PropMeta{
-		Rule: fmt.Sprintf("cases 0..%d enumerate the constructor matrix completely (11 constructor forms x N=0..%d initial values, one task each: must return, hold exactly the input, leave nothing blocked); the remaining cases are generated programs: well-formed pipelines (1-3 producers x 1-4 values, closer after the producers, 1-3 consumers draining until ok=false, optional RemoveAll caller and observer; must terminate with every task finished and every value consumed or discardable) and open programs (no closer or fixed-count consumers; at quiescence every parked call must be justified by the queue's own frozen GetSize/capacity/closed state). One seeded schedule per case, strategy drawn per run. Non-trivial = constructor case, or >=2 tasks and >=2 context switches; distinct = distinct (program, schedule trace).", ctorCases()-1, ctorMaxN),
+		Rule: fmt.Sprintf("cases 0..%d enumerate the constructor matrix completely (11 constructor forms x N=0..%d initial values, one task each: must return, hold exactly the input, leave nothing blocked); the remaining cases are generated programs: well-formed pipelines (1-3 producers x 1-4 values, closer after the producers, 1-3 consumers draining until ok=false, optional RemoveAll caller and observer; must terminate with every task finished and every value consumed or discardable) and open programs (no closer or fixed-count consumers; at quiescence every parked call must be justified by the queue's own frozen GetSize/capacity/closed state); one case in sixteen is a many-goroutine stress program or pipeline (capacity 4-16, 3-8 producers x 2-8 values, 2-8 consumers). One seeded schedule per case, strategy drawn per run. Non-trivial = constructor case, or >=2 tasks and >=2 context switches; distinct = distinct (program, schedule trace).", ctorCases()-1, ctorMaxN),
 		Assumptions: []string{
 			"liveness is stated as: the run reaches a state with no enabled task within the step cap, and every still-parked call is justified by the queue state",
 			"AddValue overlapping CloseQueue is outside the program space",
